@@ -71,6 +71,9 @@ class InverterProtocol:
         return self.response_future
 
     def _close_transport(self) -> None:
+        if self._timer:
+            self._timer.cancel()
+            self._timer = None
         if self._transport:
             try:
                 self._transport.close()
@@ -213,14 +216,14 @@ class UdpInverterProtocol(InverterProtocol, asyncio.DatagramProtocol):
             logger.debug("Sending: %s - retry #%s/%s", self.command, self._retry, self.retries)
         else:
             logger.debug("Sending: %s", self.command)
-        self._transport.sendto(payload)
+        # arm the timer first: a send error is reported synchronously (error_received) and cancels it again
         self._timer = asyncio.get_running_loop().call_later(self.timeout, self._timeout_mechanism)
+        self._transport.sendto(payload)
 
     def _timeout_mechanism(self) -> None:
         """Timeout mechanism to prevent hanging transport"""
         if self.response_future and self.response_future.done():
             logger.debug("Response already received.")
-            self._retry = 0
         else:
             if self._timer:
                 logger.debug("Failed to receive response to %s in time (%ds).", self.command, self.timeout)
@@ -373,9 +376,7 @@ class TcpInverterProtocol(InverterProtocol, asyncio.Protocol):
 
     def _timeout_mechanism(self) -> None:
         """Retry mechanism to prevent hanging transport"""
-        if self.response_future.done():
-            self._retry = 0
-        else:
+        if not self.response_future.done():
             if self._timer:
                 logger.debug("Failed to receive response to %s in time (%ds).", self.command, self.timeout)
                 self._timer = None
